@@ -53,7 +53,8 @@ def extreme_cases(tier, seed):
     for n, p in [(2 ** 64 - 1, 0.5), (2 ** 64 - 1, 1e-18), (2 ** 64 - 1, 5e-19), (2 ** 63, 1 - 1e-18), (2 ** 64 - 1, 0.999), (2 ** 63 + 1, 0.25),
                  (2 ** 64 - 1, 1e-3), (10, 0.999999), (2 ** 54, 2.0 ** -54), (2 ** 54, 1 - 2.0 ** -53)]:
         out.append(mk('binomial', 'u64', [n, p], ('c03',)))
-    for N, K, n in [(2 ** 64 - 3, 2 ** 63, 2 ** 63), (2 ** 63, 2 ** 62, 2 ** 62), (2 ** 62, 2 ** 61, 2 ** 61 + 1), (2 ** 64 - 3, 2 ** 40, 2 ** 63), (2 ** 50, 2 ** 49, 2 ** 25)]:
+    for N, K, n in [(2 ** 64 - 3, 2 ** 63, 2 ** 63), (2 ** 63, 2 ** 62, 2 ** 62), (2 ** 62, 2 ** 61, 2 ** 61 + 1), (2 ** 64 - 3, 2 ** 40, 2 ** 63), (2 ** 50, 2 ** 49, 2 ** 25),
+                    (2 ** 52, 2 ** 51, 2 ** 51), (2 ** 53, 2 ** 52, 2 ** 52), (2 ** 54, 2 ** 53, 2 ** 53), (2 ** 56, 2 ** 55, 2 ** 40), (2 ** 57, 2 ** 56, 2 ** 56), (3 * 2 ** 52, 2 ** 52, 2 ** 52)]:
         out.append(mk('hypergeometric', 'u64', [N, K, n], ('c03',)))
     for ty in C.FLOAT_TYS:
         for k in [C.TINY[ty] * 1e10, 1e-6, 1e-4]:
